@@ -1109,7 +1109,7 @@ VARIANTS = [
 
 META = {
     "design_ref": "DESIGN.md section 3, C18",
-    "technique": "field-propagation dataflow (module/level of constructed ImportFrom nodes, grouping keys) + mention checks + guard check of alias lookups by bound name",
+    "technique": "field-propagation dataflow (module/level of constructed ImportFrom nodes, grouping keys) + mention checks + guard check of alias lookups by bound name; propositional entailment of comprehension filters; sibling agreement of the two readers of a star-imported module; contradiction rule for standard-library key forms; origin census of import-bound names",
     "level_text": ("Decides on the current source that a constructed from-import never takes its module from an existing "
                    "import node without taking that node's level, that dictionaries grouping imports by module also key on "
                    "the level, that the textual constructor keeps the dots, and that __future__ imports are never counted "
